@@ -71,6 +71,11 @@ def bool_gates(body, pred):
             continue
         if pred(sc[1]):
             out.append((b, sc[1], [(b, t) for t in sc[2]], [(b, t) for t in sc[3]]))
+        elif sc[1][0] in ('t', 'v'):
+            # the tested boolean was computed into a temporary on several paths (`a && b`, an inlined bool helper)
+            for db, term, te, fe in body.virtual_conds(b):
+                if pred(term):
+                    out.append((b, term, te, fe))
     return out
 
 
@@ -510,3 +515,140 @@ def ieval(body, env, maxsteps=500):
         else:
             raise KeyError(t['k'])
     raise KeyError('too many steps')
+
+
+def negate_cn(cn):
+    return ('cmp', {'Lt': 'Ge', 'Le': 'Gt', 'Gt': 'Le', 'Ge': 'Lt', 'Eq': 'Ne', 'Ne': 'Eq'}[cn[1]], cn[2])
+
+
+def cmp_gates(body, norm, want):
+    """Gates whose condition, after `norm` rewriting (term -> atom or None), is the canonical comparison `want` or its
+    negation, in any spelling (flipped operands, negated, computed into a boolean temporary, inside an inlined helper).
+    Returns [(block, edges taken when `want` holds, edges taken when it does not)]."""
+    from .mir import Edge
+    out = []
+
+    def consider(blk, term, te, fe):
+        cn = cmp_norm(rewrite(term, norm))
+        if cn is None:
+            return
+        if cn == want:
+            out.append((blk, te, fe))
+        elif negate_cn(cn) == want:
+            out.append((blk, fe, te))
+    for blk, sc in body.switches():
+        if sc[0] != 'bool':
+            continue
+        consider(blk, sc[1], [Edge(blk, t) for t in sc[2]], [Edge(blk, t) for t in sc[3]])
+        if sc[1][0] in ('t', 'v'):
+            for db, term, te, fe in body.virtual_conds(blk):
+                consider(blk, term, te, fe)
+    return out
+
+
+def result_gates(body, pred):
+    """Tests of a Result-valued term X with pred(X), in any spelling: `X?`, `match X { Ok(..) => .., Err(e) => .. }`,
+    `if let Err(e) = X { .. }`, `X.is_err()` / `X.is_ok()`. X is matched after expanding single-definition locals.
+    Returns [(block, X, ok_edges, err_edges)]."""
+    from .mir import Edge
+    out = []
+    for b, sc in body.switches():
+        if sc[0] == 'int' and sc[1][0] == 'discr':
+            t = sc[1][1]
+            if is_call(t, r'Try::branch$'):
+                x = expand_vars(body, t[2][0])
+                if pred(x):
+                    out.append((b, x, [Edge(b, tg) for v, tg in sc[2] if v == 0], [Edge(b, tg) for v, tg in sc[2] if v != 0]))
+                continue
+            of = body.switch_discr_type(b) or ''
+            if of.startswith('core::result::Result<'):
+                x = expand_vars(body, t)
+                if pred(x):
+                    listed = [v for v, tg in sc[2]]
+                    ok = [Edge(b, tg) for v, tg in sc[2] if v == 0]
+                    err = [Edge(b, tg) for v, tg in sc[2] if v == 1]
+                    live_other = body.blocks[sc[3]]['term']['k'] != 'unreachable'
+                    if 0 not in listed and live_other:
+                        ok.append(Edge(b, sc[3]))
+                    if 1 not in listed and live_other:
+                        err.append(Edge(b, sc[3]))
+                    out.append((b, x, ok, err))
+        elif sc[0] == 'bool':
+            c = sc[1]
+            if is_call(c, r'core::result::Result::(is_err|is_ok)$'):
+                x = expand_vars(body, peel(c[2][0]))
+                if pred(x):
+                    te = [Edge(b, t0) for t0 in sc[2]]
+                    fe = [Edge(b, t0) for t0 in sc[3]]
+                    if short(c[1]).endswith('is_ok'):
+                        out.append((b, x, te, fe))
+                    else:
+                        out.append((b, x, fe, te))
+    return out
+
+
+# ---------------------------------------------------------------- role-based resolution of variables (no dependence on names)
+def param_of_type(body, ty_pat, nth=0):
+    """The nth parameter whose type matches ty_pat, as a variable term (None if absent)."""
+    hits = [i for i in range(1, body.j['arg_count'] + 1) if re.search(ty_pat, body.locals[i]['ty'])]
+    if len(hits) <= nth:
+        return None
+    i = hits[nth]
+    nm = body.locals[i]['names'][0] if body.locals[i]['names'] else '_%d' % i
+    return ('v', nm, i)
+
+
+def param_at(body, pos):
+    """The parameter at 1-based position pos as a variable term."""
+    if pos > body.j['arg_count']:
+        return None
+    nm = body.locals[pos]['names'][0] if body.locals[pos]['names'] else '_%d' % pos
+    return ('v', nm, pos)
+
+
+def var_of_type(body, t, ty_pat):
+    return isinstance(t, tuple) and t[0] == 'v' and t[2] >= 0 and re.search(ty_pat, body.locals[t[2]]['ty']) is not None
+
+
+def user_locals_of_type(body, ty_pat):
+    """Named (user) non-parameter locals whose type matches ty_pat."""
+    return [i for i, l in enumerate(body.locals) if i > body.j['arg_count'] and l['names'] and re.search(ty_pat, l['ty'])]
+
+
+def value_roots(body, term, blk, idx='term', _seen=None):
+    """Where can the value of `term` at (blk, idx) come from? Follows named / multi-definition locals through their
+    reaching definitions, copies, conversions, `?` and Some/Ok payload projections. Returns a list of root terms
+    (calls, parameters, constants, other expressions)."""
+    if _seen is None:
+        _seen = set()
+    t = term
+    for _ in range(50):
+        t = peel_all(t)
+        if t[0] == 'f' and t[1][0] == 'dc' and t[1][2] in ('Some', 'Ok', 'Continue') and t[2] == '0':
+            t = t[1][1]
+            if is_call(t, r'Try::branch$'):
+                t = t[2][0]
+            continue
+        break
+    if t[0] == 'v' and not (1 <= t[2] <= body.j['arg_count']):
+        rds = reaching_defs(body, t[2], blk, idx)
+        out = []
+        for db, di, kind, obj in rds:
+            key = (t[2], db, di)
+            if key in _seen:
+                continue
+            _seen.add(key)
+            dt = body.call_term(db, obj) if kind == 'call' else body.rvalue_term(obj['r'], 0, db)
+            out += value_roots(body, dt, db, di, _seen)
+        return out
+    if t[0] == 't':
+        out = []
+        for db, di, kind, obj in body.defs().get(t[1], []):
+            key = (t[1], db, di)
+            if key in _seen:
+                continue
+            _seen.add(key)
+            dt = body.call_term(db, obj) if kind == 'call' else body.rvalue_term(obj['r'], 0, db)
+            out += value_roots(body, dt, db, di, _seen)
+        return out
+    return [t]
